@@ -138,6 +138,19 @@ func c16Shapes() []*c16Case {
 		cs.Rules = []gram.Rule{{L: "S", R: []string{"S", "TA"}, Action: act}, {L: "S", R: []string{"TA"}, Action: " $$ = $1 "}}
 		add(fmt.Sprintf("comment-in-action-%d", ai), cs)
 	}
+	// directives yaccgo does not know (bison's %expect, %nterm, %empty ...): refusing them is fine, but a file
+	// that is written must compile
+	for _, dir := range []string{"%expect 1", "%nterm TX", "%define api.pure", "%foo"} {
+		us := gram.Parse("S", []string{"TA"}, "S: S TA | TA")
+		us.RawDecls = []string{dir}
+		add("unknown-directive-"+dir, us)
+	}
+	// $n mentioned only inside a comment or a string of the action (the rewriting of $n is textual)
+	for ai, act := range []string{"\n\t// $1 and $2 were counted already\n\t$$ = 0\n", " s := \"$1 and $2\"; _ = s; $$ = 0 ", " /* $2 */ $$ = 0 ", " $$ = 0 "} {
+		cs := &gram.Spec{Start: "S", HasUnion: true, Union: " v int ", Tokens: []gram.TokDecl{{Name: "TA", Tag: "v"}}, Types: []gram.TypeDecl{{Tag: "v", Names: []string{"S"}}}}
+		cs.Rules = []gram.Rule{{L: "S", R: []string{"S", "TA"}, Action: act}, {L: "S", R: []string{"TA"}, Action: " $$ = $1 "}}
+		add(fmt.Sprintf("dollar-only-in-quoted-text-%d", ai), cs)
+	}
 	for pi, more := range [][]string{{"var extraA int"}, {"var extraA int", "var extraB = extraA"}, {"var extraA int\nvar extraB int", "var extraC int"}} {
 		ps := gram.Parse("S", []string{"TA"}, "S: S TA | TA")
 		ps.MorePrologue = more
